@@ -84,9 +84,11 @@ func checkImmutable(sc scen.Scenario, gs []gsym) (fails []immResult, nodes int, 
 	if err != nil {
 		return []immResult{{"harness|compile", err.Error()}}, 0, false
 	}
-	// warm-up with its own values: lazily initialised process-wide tables are built here
+	// warm-up with its OWN compiled program and its own values: lazily initialised process-wide tables are built
+	// here, while the Program and values under test stay pristine (their own lazy state must not be written by a run)
+	wprg := goja.MustCompile("c16.js", sc.Src, false)
 	ws, wt := scen.Shared(sc.Shared)
-	isolated := scen.RunOne(goja.New(), prg, ws, wt)
+	isolated := scen.RunOne(goja.New(), wprg, ws, wt)
 	s, t := scen.Shared(sc.Shared)
 	hashAll := func() (p, v string, g []uint64, lines []string) {
 		hp := deephash.New()
